@@ -8,7 +8,12 @@
    statement of the property, enumerates every result sequence (ok/fail/timeout and late answers) for every
    threshold pair and initial word (HealthCheckLoop.tla model-checks the check-id protocol of the loop that
    turns answers/timeouts into those results and rejects the id-advances-on-stale-answer variant); each one is replayed through the real health checker (real timers,
-   scripted session factory) and the callback arguments / flag word are validated by TLC step by step (B1)."""
+   scripted session factory) and the callback arguments / flag word are validated by TLC step by step (B1).
+   spec/cluster/HealthWords.tla (+Trace): the word belongs to the RESOLVED address whatever way the host object came
+   into being (NewSimpleHost, cluster manager UpdateClusterHosts, STRICT_DNS resolution of a domain with several
+   records): equal addresses share, distinct addresses are independent; "WordPerDomain" rejected; topologies x
+   operation sequences (direct set/clear, health-check results of resolved hosts) replayed on real clusters with
+   a loopback DNS server, every host object read after every operation."""
 import json, os, random, re
 from concurrent.futures import ThreadPoolExecutor
 import vlib
@@ -28,11 +33,13 @@ def mismatches(txt):
 def gen_cases(ctx, module, cfgs, out_path, cap, rng):
     """TLC emits the cases of every cfg; union, de-duplicated, optionally VERIF_SEED-sampled down to cap."""
     lines = set()
-    for cfg in cfgs:
+    def one(cfg):
         raw = os.path.join(ctx.tmp, "raw_%s.jsonl" % cfg)
-        r = vlib.run_tlc(ctx, FAM, module, cfg, workers=1, cases_to=raw, timeout=900)
-        ctx.add_tlc(r)
-        lines |= set(open(raw).read().splitlines())
+        return raw, vlib.run_tlc(ctx, FAM, module, cfg, workers=1, cases_to=raw, timeout=900)
+    with ThreadPoolExecutor(max_workers=4) as ex:
+        for raw, r in ex.map(one, cfgs):
+            ctx.add_tlc(r)
+            lines |= set(open(raw).read().splitlines())
     lines = sorted(lines)
     total = len(lines)
     sampled = False
@@ -97,15 +104,24 @@ def run(ctx):
     q = ctx.quick()
     rng = random.Random(ctx.seed)
 
-    # ---- 1. the models: intended design accepted, named ways to go wrong rejected
-    for cfg in (["HealthFlags.cfg", "HealthFlags_n3.cfg"] if q else ["HealthFlags_thorough.cfg", "HealthFlags_thorough_n3.cfg"]):
-        ctx.add_tlc(vlib.run_tlc(ctx, FAM, "HealthFlags", cfg, timeout=1500))
-    ctx.add_tlc(vlib.run_tlc(ctx, FAM, "HealthChecker", "HealthChecker.cfg" if q else "HealthChecker_thorough.cfg", timeout=1500))
-    ctx.add_tlc(vlib.run_tlc(ctx, FAM, "HealthCheckLoop", "HealthCheckLoop.cfg" if q else "HealthCheckLoop_thorough.cfg", timeout=600))
-    for mod, cfg in (("HealthFlags", "HealthFlags_defect.cfg"), ("HealthChecker", "HealthChecker_defect1.cfg"),
-                     ("HealthChecker", "HealthChecker_defect2.cfg"), ("HealthCheckLoop", "HealthCheckLoop_defect.cfg"),
-                     ("HealthCheckLoop", "HealthCheckLoop_defect2.cfg"), ("HealthCheckLoop", "HealthCheckLoop_defect3.cfg")):
-        if vlib.run_tlc(ctx, FAM, mod, cfg, expect_ok=False)["ok"]:
+    # ---- 1. the models: intended design accepted, named ways to go wrong rejected (independent TLC runs, 4 at a time)
+    good = [("HealthFlags", c) for c in (["HealthFlags.cfg", "HealthFlags_n3.cfg"] if q else ["HealthFlags_thorough.cfg", "HealthFlags_thorough_n3.cfg"])]
+    good += [("HealthChecker", "HealthChecker.cfg" if q else "HealthChecker_thorough.cfg"),
+             ("HealthWords", "HealthWords.cfg"), ("HealthWords", "HealthWords_hc22.cfg"),
+             ("HealthCheckLoop", "HealthCheckLoop.cfg" if q else "HealthCheckLoop_thorough.cfg")]
+    bad = [("HealthFlags", "HealthFlags_defect.cfg"), ("HealthChecker", "HealthChecker_defect1.cfg"),
+           ("HealthChecker", "HealthChecker_defect2.cfg"), ("HealthCheckLoop", "HealthCheckLoop_defect.cfg"),
+           ("HealthCheckLoop", "HealthCheckLoop_defect2.cfg"), ("HealthCheckLoop", "HealthCheckLoop_defect3.cfg"),
+           ("HealthWords", "HealthWords_defect.cfg")]
+    nw_tlc = max(2, vlib.NCPU // 4)
+    with ThreadPoolExecutor(max_workers=4) as ex:
+        rs = list(ex.map(lambda mc: vlib.run_tlc(ctx, FAM, mc[0], mc[1], workers=nw_tlc, timeout=1500, expect_ok=False), good + bad))
+    for (mod, cfg), r in zip(good + bad, rs):
+        if (mod, cfg) in good:
+            if not r["ok"]:
+                raise vlib.Inconclusive("TLC rejected the model %s/%s: %s\n%s" % (mod, cfg, r["errors"][:3], vlib.tail(r["out"], 30)))
+            ctx.add_tlc(r)
+        elif r["ok"]:
             raise vlib.Inconclusive("%s does not reject %s: invariants are vacuous" % (mod, cfg))
 
     # ---- 2. cases
@@ -129,6 +145,11 @@ def run(ctx):
             else:
                 nl -= 1
 
+    wcases = os.path.join(ctx.tmp, "wordcases.jsonl")
+    nw, nw_total, ws = gen_cases(ctx, "HealthWords",
+                                 ["HealthWords_cases_direct.cfg", "HealthWords_cases_hc11.cfg", "HealthWords_cases_hc22.cfg"] +
+                                 ([] if q else ["HealthWords_cases_thorough.cfg"]), wcases, None if q else 40000, rng)
+
     # ---- 3. real executions
     binary = vlib.go_build("c16")
     ftrace = os.path.join(ctx.tmp, "flags.ndjson")
@@ -137,6 +158,12 @@ def run(ctx):
     flog = vlib.run_driver(ctx, binary, ["-mode", "flags", "-cases", fcases, "-trace", ftrace], timeout=900)
     vlib.run_driver(ctx, binary, ["-mode", "mix", "-cases", fcases, "-trace", mtrace], timeout=900)
     tlog = vlib.run_driver(ctx, binary, ["-mode", "thr", "-cases", tcases, "-trace", ttrace, "-par", "96"], timeout=1700)
+    wtrace = os.path.join(ctx.tmp, "words.ndjson")
+    wlog = vlib.run_driver(ctx, binary, ["-mode", "words", "-cases", wcases, "-trace", wtrace, "-par", "8"], timeout=1200)
+    wsumm = json.load(open(wtrace + ".summary"))
+    ctx.cov["words_driver"] = wsumm
+    if wsumm["failed"]:
+        raise vlib.Inconclusive("%d topologies could not be built / driven (driver log %s):\n%s" % (wsumm["failed"], wlog, vlib.tail(wlog, 10)))
     summ = json.load(open(ttrace + ".summary"))
     m = re.search(r"gates=(\d+) skipped_steps=(\d+)", open(flog).read())
     gates, skipped = (int(m.group(1)), int(m.group(2))) if m else (0, 0)
@@ -174,6 +201,25 @@ def run(ctx):
         if rej is not None:
             flag_fail(rej, "trace-rejected:" + evs[rej - 1]["ev"])
 
+    # where the word lives: hosts by origin (static / cluster manager / STRICT_DNS records)
+    evs, mm, rej = validate(ctx, "HealthWordsTrace", wtrace, "topo")
+    span = case_spans(evs, "topo")
+    ctx.cov["traces_validated_against_impl"] += sum(1 for e in evs if e["ev"] == "topo")
+    ctx.cov["evaluations"] += sum(len(e["views"]) for e in evs if e["ev"] == "op")
+    ctx.cov["trace_events"]["words"] = len(evs)
+    ctx.sample({"part": "words", "trace_head": evs[:3]})
+    done_cases = set()
+    for line in sorted(mm):
+        st = span.get(line, 1)
+        if st in done_cases:
+            continue
+        done_cases.add(st)
+        for k in sorted(mm[line]):
+            vlib.report_failure(ctx, "C16:words:%s" % k, dict(line=line, history=evs[st - 1:line]))
+    if rej is not None:
+        st = span.get(rej, 1)
+        vlib.report_failure(ctx, "C16:words:trace-rejected:" + evs[rej - 1]["ev"], dict(line=rej, history=evs[st - 1:rej]))
+
     # thresholds
     evs, mm, rej = validate(ctx, "HealthCheckerTrace", ttrace, "new")
     span = case_spans(evs, "new")
@@ -199,18 +245,24 @@ def run(ctx):
     if rej is not None:
         thr_fail(rej, "trace-rejected:" + evs[rej - 1]["ev"])
 
-    ctx.cov["distinct_nontrivial"] = nf + nt + nl
-    ctx.cov["cases"] = dict(flags=[nf, nf_total], thr_plain=[nt, nt_total], thr_late=[nl, nl_total])
-    ctx.cov["exhaustive"] = not (fs or ts or ls)
+    ctx.cov["distinct_nontrivial"] = nf + nt + nl + nw
+    ctx.cov["cases"] = dict(flags=[nf, nf_total], thr_plain=[nt, nt_total], thr_late=[nl, nl_total], words=[nw, nw_total])
+    ctx.cov["exhaustive"] = not (fs or ts or ls or ws)
     ctx.cov["rule"] = ("flags: every complete interleaving (at load/store granularity) of 2 writers x <=2 ops and 3 writers x 1 op "
                        "(thorough: up to 2x3 / 3x2), each writer on its own condition, every program and initial word, forced on real "
                        "hosts of one address; one reading of HealthFlag()/Health() after every step; the 2-writer cases whose writer 1 alternates are "
-                       "run again with the real health checker (thresholds 1/1) as writer 1 (mix). thresholds: every result sequence "
+                       "run again with the real health checker (thresholds 1/1) as writer 1 (mix). words: 16 topologies (which of 3 addresses a SIMPLE "
+                       "cluster with NewSimpleHost hosts, a cluster-manager cluster and the records of 1-2 STRICT_DNS domains resolved through a "
+                       "loopback DNS server have) x every sequence of 2 operations (set/clear on any host object; check ok/fail of a resolved "
+                       "host through the cluster's health checker, thresholds 1/1) and of 4 check results with thresholds 2/2; every host "
+                       "object is read after every operation. thresholds: every result sequence "
                        "of length 5 (thorough 7) over ok/fail/timeout x thresholds {0,1,2,3}^2 x initial words, and every sequence of length 3 "
                        "(thorough: 4, sampled) over ok/fail/timeout + late answers of a timed-out check at each of 4 positions (timer fired / "
                        "timeout handled / next check started / next check handled) x thresholds {1,2,3}^2, replayed through the real "
                        "checker, every step driven by the loop events; one evaluation per callback")
-    ctx.assumptions += ["a check counts as answered in time when the scripted session returns at once (a timeout timer that fires for it "
+    ctx.assumptions += ["words: the active-check condition is written by the health checker only (direct operations in health-checker cases "
+                        "use the outlier condition), hosts of STRICT_DNS clusters are read after the resolved host set was published",
+                        "a check counts as answered in time when the scripted session returns at once (a timeout timer that fires for it "
                         "is held by the harness, so scheduling delays cannot turn it into a timeout)",
                         "timeout = the session has not answered when the real 10 ms timer fires; a late answer is let out at the enumerated "
                         "position, for position 0 (timer fired, signal not yet taken) either the answer or the timeout may count, never both",
